@@ -384,7 +384,12 @@ def flagsMatchModel (names : List NameInfo) : Bool :=
     x.q == qualifiesForCert x.str && x.pub == qualifiesForPublic x.str && x.ip == isIP x.str &&
     x.internal == isInternal x.str && x.mw == names.map (fun y => matchWildcard x.str y.str)
 
-def handle : List String → String
+def chunk7 : List String → Option (List (List String))
+  | [] => some []
+  | a :: b :: c :: d :: e :: f :: g :: rest => (chunk7 rest).map fun t => [a, b, c, d, e, f, g] :: t
+  | _ => none
+
+def handle1 : List String → String
   | ["nm", a, b] => handleNM a b
   | ["cf", hp, sp, opts, names, sites, t, a] => handleCF hp sp opts names sites t a
   | ["cfg", k, hp, sp, names, servers, policies, loaded] =>
@@ -398,6 +403,19 @@ def handle : List String → String
       else "bad-op"
     | _, _, _, _, _, _, _ => "bad-op"
   | _ => "bad-op"
+
+/-- all ops; a history of loads is answered load by load, each config on its own
+    (`Props.history_independent`) -/
+def handle : List String → String
+  | "hist" :: n :: rest =>
+    match nat? n, chunk7 rest with
+    | some n, some loads =>
+      if 1 ≤ n ∧ n ≤ 4 ∧ loads.length = n then
+        (if (loads.map fun l => handle1 ("cfg" :: l)).contains "bad-op" then "bad-op"
+         else " || ".intercalate (loads.map fun l => handle1 ("cfg" :: l)))
+      else "bad-op"
+    | _, _ => "bad-op"
+  | l => handle1 l
 
 /-- counter-example lines replayed on the implementation on every run (see Witness.lean) -/
 def witnessLines : List String := [
